@@ -1,5 +1,5 @@
 """C13 -- solving again gives fresh, consistent answers."""
-from . import state, formula, translate, solveprog
+from . import state, formula, translate, solveprog, pepsolve
 
 LEVEL = "other"
 EXPLANATION = ("Per-solve freshness (new wrapper, rebinding of the tracking lists and of the objective leaf, regeneration of class and "
@@ -13,8 +13,10 @@ ASSUMPTIONS = ["equality of returned numbers across solves is not decided (solve
 
 def run(ctx):
     state.r_fresh(ctx)
-    solveprog.r_solve_program(ctx, {"track", "drain"})   # nothing left over from an earlier solve is tracked or sent; what is sent is what was just regenerated
+    solveprog.r_solve_program(ctx, {"track", "drain", "duals"})   # nothing left over from an earlier solve is tracked or sent; what is sent is what was just regenerated
     n = state.r_accum(ctx)
+    state.r_postsolve(ctx)
+    pepsolve.r_order(ctx)        # the multipliers of every successful solve are captured, whatever the mode: none survives from an earlier solve
     state.r_memo(ctx)
     state.r_memo_new(ctx)
     formula.r_regen(ctx)
